@@ -13,7 +13,7 @@ def observe(spec, inputs):
     m0 = plspec.build(n, spec["model"], env)
     out = {"snap": C.snapshot(n, m0), "error": None}
     m1 = plspec.build(n, spec["model"], env)
-    F = {k: o for k, (p, o) in inputs["assume"].items() if p}
+    F = {k: C.form(n, spec.get("aform", "int"), o) for k, (p, o) in inputs["assume"].items() if p}
     try:
         if spec.get("warm"):
             C.warm(m1)
